@@ -11,7 +11,7 @@ use crate::desc::{d, parse_arrival, ArrDesc};
 use crate::harness::{components_json, finish, Options};
 use crate::json::Json;
 use crate::rng::{hash_str, Fingerprint, Rng};
-use crate::stats::{run_parallel, Acc, Distinct, Report};
+use crate::stats::{run_parallel_then, Acc, Distinct, Report};
 
 /// The recorded generation history of one event stream; mirrors the structure of the model.
 #[derive(Clone, Debug, PartialEq, Eq)]
@@ -800,45 +800,47 @@ pub fn run_c10(opt: &Options) -> i32 {
         fps: &fps,
         nontrivial: &nontrivial,
     };
-    let mut acc = run_parallel(models, opt.jobs, 60, |k, acc, note| c10_item(&sh, k, acc, note));
-    let wall = t0.elapsed().as_secs_f64();
-    let mut cov = Json::obj();
-    cov.set("evaluations", Json::Int(acc.counters.get("runs") as i128));
-    cov.set("distinct_nontrivial", Json::Int(nontrivial.count() as i128));
-    cov.set(
-        "rule",
-        Json::str(
-            "one evaluation = one event stream generated by the documented process of one arrival \
-             model (periodic with phase; sporadic arrivals with gap stretching and per-event \
-             release jitter incl. reordering; delta-min constrained sequences with bursts; \
-             per-event delays for Propagated / clone_with_jitter, nested; merged component \
-             streams), checked in every window [t_i, t_j] against number_arrivals; the dense \
-             stream of Periodic/Sporadic must attain the bound. distinct = distinct (model, event \
-             vector) fingerprints; non-trivial = at least three events",
-        ),
-    );
-    cov.set("distinct_streams", Json::Int(fps.count() as i128));
-    cov.set("models", Json::Int(acc.counters.get("models") as i128));
-    cov.set("simulated_time_ticks", Json::Int(acc.counters.get("sim_ticks") as i128));
-    cov.set(
-        "components",
-        components_json(
-            &["response_time_analysis::arrival::{Periodic, Sporadic, Curve, ArrivalCurvePrefix, Propagated, Never, Vec<_>, sum_of, Rc<_>}::number_arrivals and clone_with_jitter (real)"],
-            &["event sources for every documented process, delay injector, stream merger (stubs, sim/src/streams.rs)"],
-        ),
-    );
-    let out = finish(
-        opt,
-        &mut acc,
-        wall,
-        cov,
-        &[
-            "admissible = the process each model documents (not the library's curve): exact period; arrivals >= T apart each released within J; delta-min constraints for the recorded n only; each event of an admissible input delayed by <= the added jitter; superposition",
-            "the clause 'jitter a then b equals a+b' and sub-additivity are pointwise comparisons evaluated along the scan (ride-along)",
-        ],
-        &|r: &Report| minimise_report(r),
-    );
-    out.exit_code
+    let fin = |mut acc: Acc| -> i32 {
+        let wall = t0.elapsed().as_secs_f64();
+        let mut cov = Json::obj();
+        cov.set("evaluations", Json::Int(acc.counters.get("runs") as i128));
+        cov.set("distinct_nontrivial", Json::Int(nontrivial.count() as i128));
+        cov.set(
+            "rule",
+            Json::str(
+                "one evaluation = one event stream generated by the documented process of one arrival \
+                 model (periodic with phase; sporadic arrivals with gap stretching and per-event \
+                 release jitter incl. reordering; delta-min constrained sequences with bursts; \
+                 per-event delays for Propagated / clone_with_jitter, nested; merged component \
+                 streams), checked in every window [t_i, t_j] against number_arrivals; the dense \
+                 stream of Periodic/Sporadic must attain the bound. distinct = distinct (model, event \
+                 vector) fingerprints; non-trivial = at least three events",
+            ),
+        );
+        cov.set("distinct_streams", Json::Int(fps.count() as i128));
+        cov.set("models", Json::Int(acc.counters.get("models") as i128));
+        cov.set("simulated_time_ticks", Json::Int(acc.counters.get("sim_ticks") as i128));
+        cov.set(
+            "components",
+            components_json(
+                &["response_time_analysis::arrival::{Periodic, Sporadic, Curve, ArrivalCurvePrefix, Propagated, Never, Vec<_>, sum_of, Rc<_>}::number_arrivals and clone_with_jitter (real)"],
+                &["event sources for every documented process, delay injector, stream merger (stubs, sim/src/streams.rs)"],
+            ),
+        );
+        let out = finish(
+            opt,
+            &mut acc,
+            wall,
+            cov,
+            &[
+                "admissible = the process each model documents (not the library's curve): exact period; arrivals >= T apart each released within J; delta-min constraints for the recorded n only; each event of an admissible input delayed by <= the added jitter; superposition",
+                "the clause 'jitter a then b equals a+b' and sub-additivity are pointwise comparisons evaluated along the scan (ride-along)",
+            ],
+            &|r: &Report| minimise_report(r),
+        );
+        out.exit_code
+    };
+    run_parallel_then(models, opt.jobs, 60, |k, acc, note| c10_item(&sh, k, acc, note), &fin)
 }
 
 fn get_line(text: &str, head: &str) -> Option<String> {
